@@ -7,3 +7,7 @@ import Dashu.Props.C20Gen
 #print axioms Dashu.Props.C20Gen.int_const_conversion_total
 #print axioms Dashu.Props.C20Gen.float_path_regenerated
 #print axioms Dashu.Props.C20Gen.ratio_path_regenerated
+#print axioms Dashu.Props.C20Gen.fbig_prelude_eq
+#print axioms Dashu.Props.C20Gen.fbig_prelude_regenerated
+#print axioms Dashu.Props.C20Gen.dbig_prelude_regenerated
+#print axioms Dashu.Props.C20Gen.quote_sign_regenerated
